@@ -555,6 +555,40 @@ func checkC03(c *Ctx) {
 		})
 	}
 
+	// ---- remembered prefix bind is dropped once a bind becomes active (K1)
+	r.Rule("C03.prefixed-reset", "K1", "after dispatchKeys makes a bind active, every path to return resets the remembered prefix bind (a stale one would run for a later unbound key)", 2)
+	{
+		n := 0
+		eachInstr(DK, func(in ssa.Instruction) {
+			if _, ok := isFieldStore(in, "keymap.Engine", "active"); !ok {
+				return
+			}
+			key := fmt.Sprintf("%s:store(active)#%d→reset(prefixed)", fnName(DK), n)
+			n++
+			ok2, _ := mustPassBefore(DK, in, isReturn, func(x ssa.Instruction) bool {
+				st, ok := isFieldStore(x, "keymap.Engine", "prefixed")
+				if !ok {
+					return false
+				}
+				for _, l := range backSlice(st.Val, &SliceOpts{P: p}) {
+					if l.Kind != LeafConst {
+						return false
+					}
+				}
+				return true
+			})
+			r.Check(ok2, "C03.prefixed-reset", key, p.IPos(in), "prefixed reset on every path after the bind became active", "a path returns with a bind active and the remembered prefix bind still set: after a longer sequence completed, the next unbound key runs the shorter binding's command")
+		})
+	}
+	r.Rule("C03.popkey-owner", "K2", "core.PopKey (which leaves mustWait untouched) is called only by the dispatcher; any other consumer drops keys with PopForce", 1)
+	if pk := p.Func("core.PopKey"); pk != nil {
+		for _, e := range p.callersOf(pk) {
+			cn := fnName(e.Caller.Func)
+			r.CallSites++
+			r.Check(cn == "(*keymap.Engine).dispatchKeys", "C03.popkey-owner", cn+":core.PopKey", p.Pos(e.Pos()), "dispatcher", cn+" drops a key with PopKey: mustWait stays set, so the key is neither flushed from the macro recorder's view nor recorded (a standalone ESC disappears from vi macros)")
+		}
+	}
+
 	// ---- macro feed (K3+K4)
 	r.Rule("C03.macro-feed", "K3", "a macro bind feeds Unescape(bind.Action) at the tail of the key queue, only under bind.Macro", 1)
 	{
